@@ -16,8 +16,11 @@ CLAIMS = {
          "(languages <=3 types, expression depth <=3, models <=3 assets incl. cycles and self-links).", '4 C01'),
  'C02': ('other', "Deductive: add_node (id assignment, duplicate-id rejection, both indexes), full_name, the lookups and lemma LOOKUP (a lookup returns exactly the member with that key). "
          "Bounded: the node loop of _generate_graph (one node per asset x step, attributes, existence status) is decided by the floor.", '4 C02'),
- 'C03': ('other', "Deductive: _get_attacks_for_asset_type is proved pure (nothing allocated before the call is written: the specification stays unmodified), separated (every container reachable from "
-         "the result is fresh) and terminating, against the assumed contract DEEPCOPY. Bounded: the fold equation (override / extend / no-reaches) is decided by the floor over all chains of depth <=4.", '4 C03'),
+ 'C03': ('other', "Deductive: _get_attacks_for_asset_type is verified against the fold of the property statement - the result has exactly the step names the type declares or inherits, every entry is "
+         "a copy of its base declaration (nearest '->' redefinition on the way up, else the top-most declaration), its expression list is the inherited sequence, replaced by '->', extended by '+>' "
+         "and left untouched by a redefinition without reaches (sequences of specification records, through a ghost origin map on copies) - and is pure (nothing allocated before the call is written), "
+         "separated (everything reachable from the result is fresh) and terminating, against the assumed contract DEEPCOPY. Since the result is a function of the unchanged specification, repeated "
+         "lookups agree. Bounded: lookups interleaved with language-graph regenerations and attack-graph generations (those callers are not under contract) by the floor over all chains of depth <=4.", '4 C03'),
  'C04': ('other', "Deductive (small part): MalCompiler.compile - the per-file driver that resolves includes relative to the including file's directory state and restores it on every exit - is verified "
          "against the assumed ANTLR contract (shared with C17). Bounded (the bulk): printer -> real compiler round trip over enumerated and random specifications (TTC arithmetic, set / collect / "
          "transitive / subtype / variable expressions, multiplicities, meta), include layouts incl. same include string in different directories, name-sharing associations, coreLang .mar. "
@@ -53,7 +56,7 @@ CLAIMS = {
          "against the assumed contract DEEPCOPY for plain data. Bounded: Attacker / AttackGraph __deepcopy__ and independence under later mutations by the floor (graphs <=3 nodes, 28 mutations).", '4 C14'),
  'C15': ('other', "Deductive: is_subasset_of == reflexive-transitive closure (with termination), get_asset_by_name. Bounded: all language structures over <=3 types incl. ill-formed ones, "
          "over-approximation of attack-graph edges.", '4 C15'),
- 'C16': ('other', "Deductive: the frame part — _get_attacks_for_asset_type writes nothing allocated before the call (language specification untouched) and its result is fresh. Bounded: same-process, "
+ 'C16': ('other', "Deductive: the frame part — _get_attacks_for_asset_type writes nothing allocated before the call (language specification untouched), its result is fresh and is a function of the specification only (see C03). Bounded: same-process, "
          "fresh-process (hash seeds) and wrapper determinism by the floor.", '4 C16'),
  'C17': ('other', "Deductive: MalCompiler.compile returns normally only if the file has no lexer error, no parser error, no unparsed tail and no malformed include, and restores its path state on every exit "
          "- verified against an ASSUMED contract of the ANTLR runtime (errors are reported to the registered listeners; a raising listener propagates) and an assumed contract of the visitor for includes. "
